@@ -5,6 +5,7 @@ import (
 	"bytes"
 	"fmt"
 	"github.com/gobwas/ws/wsutil"
+	"io"
 	"strings"
 	"unicode/utf8"
 	"verifmc/env"
@@ -476,6 +477,114 @@ func main() {
 					}
 				}
 			}
+		})
+
+		// The header check as the streaming reader applies it, with the endpoint state the reader
+		// keeps: after every prefix of a small stream the next header is accepted exactly when
+		// CheckHeader accepts it in the state the RFC gives that prefix (a message open or not) -
+		// also when the caller met a temporary transport error at a frame boundary on the way and
+		// simply repeated the call (NextFrame by NextFrame, or while discarding the open message).
+		r.Part("E5-the-check-with-the-state-the-reader-keeps", func(t *explore.T) {
+			type fr struct {
+				op  byte
+				fin bool
+			}
+			type pre struct {
+				name   string
+				frames []fr
+				open   bool
+			}
+			pres := []pre{
+				{"nothing", nil, false},
+				{"Text", []fr{{1, true}}, false},
+				{"Text-", []fr{{1, false}}, true},
+				{"Text- Ping", []fr{{1, false}, {9, true}}, true},
+				{"Bin- Cont-", []fr{{2, false}, {0, false}}, true},
+				{"Bin- Cont", []fr{{2, false}, {0, true}}, false},
+			}
+			for _, server := range []bool{true, false} {
+				for _, p := range pres {
+					for _, mode := range []string{"frame-by-frame", "discarding"} {
+						if mode == "discarding" && !p.open {
+							continue
+						}
+						for hiccup := -1; hiccup <= len(p.frames); hiccup++ {
+							if hiccup == 0 || (mode == "discarding" && hiccup != len(p.frames)) {
+								continue
+							}
+							for op := byte(0); op < 16; op++ {
+								for _, fin := range []bool{true, false} {
+									server, p, mode, hiccup, op, fin := server, p, mode, hiccup, op, fin
+									t.Do(func() string {
+										return fmt.Sprintf("server=%v after [%s] (%s; temporary error behind frame %d) next header op=%x fin=%v", server, p.name, mode, hiccup, op, fin)
+									}, func() *explore.Fail {
+										var data []byte
+										var ends []int
+										for _, f := range p.frames {
+											data = append(data, refmodel.Frame{H: refmodel.Hdr{Fin: f.fin, Op: f.op, Masked: server, Mask: [4]byte{1, 2, 3, 4}}}.Wire()...)
+											ends = append(ends, len(data))
+										}
+										h := refmodel.Hdr{Fin: fin, Op: op, Masked: server, Mask: [4]byte{5, 6, 7, 8}}
+										probeAt := len(data)
+										data = append(data, refmodel.HdrEncode(h)...)
+										src := env.NewSrc(data)
+										if hiccup > 0 {
+											src.HiccupAt, src.HiccupErr = ends[hiccup-1], env.TempErr{IsTimeout: true}
+										}
+										st := ws.StateClientSide
+										if server {
+											st = ws.StateServerSide
+										}
+										rd := &wsutil.Reader{Source: src, State: st}
+										next := func() error {
+											for i := 0; i < 4; i++ {
+												_, e := rd.NextFrame()
+												if _, temp := e.(env.TempErr); !temp {
+													return e
+												}
+											}
+											return fmt.Errorf("harness: temporary error repeats")
+										}
+										var got error
+										if mode == "frame-by-frame" {
+											for range p.frames {
+												if err := next(); err != nil {
+													return explore.Failf("harness-prefix", "NextFrame: %v", err)
+												}
+											}
+											got = next()
+										} else {
+											if err := next(); err != nil {
+												return explore.Failf("harness-prefix", "NextFrame: %v", err)
+											}
+											// discard the open message: the first attempt meets the temporary error
+											// right in front of the probe, the second one meets the probe
+											for i := 0; i < 4; i++ {
+												got = rd.Discard()
+												if _, temp := got.(env.TempErr); !temp {
+													break
+												}
+											}
+											if got == io.ErrUnexpectedEOF || got == io.EOF {
+												got = nil // the probe was taken as a fragment and the stream ended there
+											}
+											if got == nil && src.Off == probeAt {
+												got = next()
+											}
+										}
+										want := refmodel.CheckRules(h, refmodel.St{Server: server, Client: !server, Fragmented: p.open})
+										if (got == nil) != (len(want) == 0) {
+											return explore.Failf("reader-applies-the-check-with-a-wrong-state:"+mode, "reader: %v; rule list with fragmented=%v: %v", got, p.open, want)
+										}
+										return nil
+									})
+								}
+							}
+						}
+					}
+				}
+			}
+			t.Outcome("as-CheckHeader")
 		})
 	})
 }
